@@ -25,7 +25,6 @@ import (
 
 	"mellium.im/xmlstream"
 	"mellium.im/xmpp"
-	"mellium.im/xmpp/jid"
 	"mellium.im/xmpp/muc"
 	"mellium.im/xmpp/stanza"
 
@@ -42,6 +41,9 @@ type hspec struct {
 	spine []elemSpec // expected payload of a result reply: spine[0] > spine[1] > ...
 	elems []elemSpec // vocabulary below the payload
 	texts []string
+	// macros: ready-made subtrees of typical replies (a page marker, a form, an
+	// item with everything), available wherever an element is, one node each.
+	macros []string
 	// errReturned: the helper documents that error replies are returned as
 	// errors (it is built on UnmarshalIQ / IterIQ), so oracle clause 4 applies.
 	errReturned bool
@@ -93,11 +95,12 @@ var errPkg = &pkgSpec{
 // hgen grows trees like treeGen, with a node budget of its own next to the
 // explorer's deviation bound (a node costs one deviation).
 type hgen struct {
-	c    *nd.Ctx
-	p    *pkgSpec
-	left int
-	dup  bool
-	n    int
+	c      *nd.Ctx
+	p      *pkgSpec
+	macros []string // ready-made subtrees (typical well-formed content), one node each
+	left   int
+	dup    bool
+	n      int
 }
 
 func (g *hgen) can() bool { return g.left > 0 && g.c.Remaining() > 0 }
@@ -114,12 +117,16 @@ func (g *hgen) grow(n *tnode, es *elemSpec, root bool) {
 	}
 	ls := labelsFor(g.p, es, root)
 	for g.can() {
-		k := g.c.ChooseCost(1+len(ls), "node", 1)
+		k := g.c.ChooseCost(1+len(ls)+len(g.macros), "node", 1)
 		if k == 0 {
 			break
 		}
 		g.left--
 		g.n++
+		if k > len(ls) {
+			n.children = append(n.children, &tnode{name: xml.Name{Local: "macro"}, raw: true, text: g.macros[k-1-len(ls)]})
+			continue
+		}
 		l := ls[k-1]
 		switch l.kind {
 		case lElem:
@@ -277,7 +284,7 @@ func plan(c *nd.Ctx, h *hspec, bd hbounds) (p planned, ok bool) {
 	p.typ = "result"
 	switch p.class {
 	case clResult:
-		g := &hgen{c: c, p: h.pkg, left: bd.result}
+		g := &hgen{c: c, p: h.pkg, macros: h.macros, left: bd.result}
 		variant := c.Choose(4, "payload") // expected, none, expected name in another namespace, another name in the expected namespace
 		var nodes []*tnode
 		if g.can() {
@@ -665,8 +672,6 @@ func helpersBody(hs []*hspec, bd hbounds) nd.Body {
 	}
 }
 
-var _ = jid.JID{}
-
 // helperGroups splits the helper table into parts.
 var helperGroups = []struct {
 	part, desc string
@@ -679,12 +684,12 @@ var helperGroups = []struct {
 }
 
 func helperParts(tier string) []drv.Part {
-	bd := hbounds{result: 2, err: 1, errAll: 3}
-	shapesN := 3
+	bd := hbounds{result: 3, err: 1, errAll: 3}
+	shapesN, maxTexts := 4, 2
 	b := 3 * time.Minute
 	if tier == "thorough" {
-		bd = hbounds{result: 3, err: 2, errAll: 4}
-		shapesN = 4
+		bd = hbounds{result: 4, err: 2, errAll: 3}
+		shapesN, maxTexts = 5, 3
 		b = 20 * time.Minute
 	}
 	oneP := []string{"GOMAXPROCS=1"}
@@ -726,8 +731,16 @@ func helperParts(tier string) []drv.Part {
 		panic("c09: a helper belongs to no part")
 	}
 	parts = append(parts,
-		drv.Part{Name: "decoders-shapes", Desc: "stanza.UnmarshalError, stanza.UnmarshalIQError, xml.Unmarshal into stanza.Error and stream.Error over the product type x by x condition x 0-3 <text/> (xml:lang missing/en/de, empty/non-empty) x application condition x unknown child x character data between children x what precedes the error", Body: shapesBody(), MaxDev: 0, CutDepth: 4, Budget: b},
+		drv.Part{Name: "decoders-shapes", Desc: fmt.Sprintf("stanza.UnmarshalError, stanza.UnmarshalIQError, xml.Unmarshal into stanza.Error and stream.Error over the product type x by x condition x 0-%d <text/> (xml:lang missing/en/de, empty/non-empty) x application condition x unknown child x character data between children x what precedes the error", maxTexts), Body: shapesBody(maxTexts), MaxDev: 0, CutDepth: 4, Budget: b},
 		drv.Part{Name: "decoders-trees", Desc: fmt.Sprintf("the same decoders over every tree of the error vocabulary with <= %d nodes", shapesN), Body: errTreesBody(shapesN), MaxDev: shapesN, CutDepth: 3, Budget: b},
 	)
 	return parts
 }
+
+const helpersRule = "Second half (request helpers, parts helpers-* and decoders-*): for each of the library's request helpers (Session.SendIQ/SendIQElement/EncodeIQElement/UnmarshalIQ/UnmarshalIQElement/IterIQ/IterIQElement, disco.GetInfo/FetchItems/WalkItem, roster.Fetch/Set/Delete, blocklist.Fetch/Add/Remove/Report, pubsub.Fetch/Publish/Delete/CreateNode/GetConfig/GetDefaultConfig/SetConfig, bookmarks.Fetch/Publish/Delete, history.Fetch and (*Handler).Fetch, version.Get, xtime.Get, upload.GetSlot, ping.Send, carbons.Enable/Disable, bin.Get, muc.GetConfig/SetConfig/(*Channel).SetAffiliation after a join, commands.Fetch/Command.Execute/Command.ForEach; the non-IQ variants, which call the IQ variants) one real session under the controlled scheduler along the canonical schedule, Serve running the full mux, the helper called in the application thread, a reactive peer answering the request (same id, from/to swapped) with every reply of: " +
+	"result: [text|white space|unknown element]? {expected payload (for nested payloads every prefix of the nesting) | none | expected name in another namespace | another name in the expected namespace} carrying every tree over the helper's reply vocabulary (its elements anywhere, each attribute valid/empty/junk, unknown attribute, xml:lang, prefixed attribute, text, white space, helper specific text, ready-made typical subtrees such as a result-set page marker, a complete data form, a complete item) then [text|white space|unknown element|second payload]*, all <= N nodes (quick 3, thorough 4); " +
+	"error: [echoed request payload]? [text|white space]? {<error/> | none | <error/> in another namespace} with every tree over the error vocabulary (conditions, <text/> with xml:lang, application condition, nested error, type/by valid/empty/junk) of <= 1 node (quick; 2 thorough), <= 3 nodes for the helpers with error handling of their own; " +
+	"ill-formed: end of input inside the payload's start tag / inside the payload / after the payload, mismatched end tag, undefined entity, duplicate attribute, unquoted attribute, comment, NUL, closing stream tag inside the reply, each as result and as error; " +
+	"not a reply: an IQ with the request's id and type get/set/none/bogus, with and without payload (the application then cancels the call); header: type x from {request's to, missing, not a JID, empty, own bare} x to {own, missing, not a JID} x xml:lang; history: 0-2 archive messages (matching/other query id, text before the result, second payload) before the reply; later requests of the same call answered with {empty result, service-unavailable, forbidden}. " +
+	"Oracle per execution: no panic in any thread (helper:<name>:panic:<site>); the helper returns and what it returned can be drained and closed (helper:<name>:never-returns); afterwards the peer sends a sentinel message and the closing stream tag and Serve handles the sentinel (if a reference decoder accepts the reply) and returns (helper:<name>:serve-stalled-after-reply / -after-ill-formed-reply); helpers documented to return error replies return a non-nil error for type='error' replies carrying an <error/> (helper:<name>:error-reply-not-reported). " +
+	"decoders-shapes: stanza.UnmarshalError, stanza.UnmarshalIQError, xml.Unmarshal into stanza.Error and into stream.Error over the product type {none, cancel, bogus} x by {none, JID, not a JID, empty} x condition {none, defined, wrong namespace, two, with text content} x 0-2 (thorough 0-3) <text/> each xml:lang {none, en, de} x {empty, words} x application condition {none, empty, nested with a <text/> inside} x unknown child x character data between children {none, text, white space} x before the error {nothing, payload, text}; decoders-trees: the same decoders over every tree of the error vocabulary with <= 4 nodes (thorough 5); oracle: a value or an error, no panic (decoder:<name>:<site>)."
